@@ -30,6 +30,9 @@ RELIED = ["constant", "event_type", "checkfixed", "variable", "cplx_decay_line",
 def run(ctx, ss):
     for r, f in (("C17.1", c17_1), ("C17.2", c17_2), ("C17.3", c17_3), ("C17.4", c17_4), ("C17.5", c17_5), ("C17.5", c17_7), ("C17.8", c17_8), ("C17.9", c17_9)):
         ctx.guard(r, f, ss)
+    # C17.10: nothing on the way from the observed entry points is memoised on a parser / tree / path / container (shared.py)
+    from .shared import memo_for
+    ctx.guard("C17.10", memo_for, ss, "C17", "C17.10", "a reading")
 
 
 def c17_1(ctx, ss):
